@@ -2,6 +2,7 @@
 re-runs a sample of its cases through each sub-command that reaches the same code (the model covers both;
 a check that is dropped, added or altered on one route only shows up here)."""
 from vlib.core import Case, hx
+from vlib import core
 from vlib import bip39, cli
 
 FIXED_TX = '{"nonce":7,"gasPrice":"0x3b9aca00","gas":21000,"to":"0x000000000000000000000000000000000000dEaD","value":"1000000000000000000","data":"0x","chainId":1}'
@@ -29,7 +30,7 @@ def add_routes(cases, rng, k, tier):
     for c in (rng.sample(pool, k) if len(pool) > k else pool):
         op, *args = c.line.split(" ")
         tags = ("route",) + tuple(c.tags[:1])
-        vf = {"via_file": rng.random() < 0.5, "via": {"mnemonic": rng.choice(["flag", "env"])}}
+        vf = {"via_file": core.input_route(rng), "via": {"mnemonic": rng.choice(["flag", "env"])}}
         if op == "td.hash":
             out.append(Case("cli.hash_td %s 0" % args[0], tags=tags + ("hash_td",), runner="cli", meta=dict(vf)))
             out.append(Case("cli.hash_td %s 1" % args[0], tags=tags + ("hash_td-m",), runner="cli", meta=dict(vf)))
